@@ -102,10 +102,12 @@ struct Result {
     std::vector<sim::deviation> deviations;   // taken in the primary world under test
     std::map<std::string,uint64_t> faults;    // fault kind -> times it FIRED
     std::map<std::string,uint64_t> counts;    // free counters (components exercised, ...)
+    bool poisoned = false;       // a world was abandoned (deadlock / tick budget): fiber stacks were dropped, the process must not go on
     js::Value sample;            // the case written out
     void fail(const Violation &x) { if (v.size() < 8) v.push_back(x); }
     void absorb(const sim::RunStatus &st) {
         hash = sim::hash_combine(hash, st.hash); ticks += st.points; switches += st.switches; ++worlds;
+        if (st.status != sim::ST_OK) poisoned = true;
     }
 };
 
